@@ -45,6 +45,7 @@ type Conn struct {
 	latency time.Duration
 	ronce   sync.Once
 	wonce   sync.Once
+	conce   sync.Once
 }
 
 // Read reads bytes from connection into b, optionally simulating connection
@@ -93,9 +94,16 @@ func (c *Conn) ReadFrom(r io.Reader) (int64, error) {
 	}
 }
 
-// Close closes the connection.
+// Close closes the connection along with the buckets that were created for it.
 // Any blocked Read or Write operations will be unblocked and return errors.
 func (c *Conn) Close() error {
+	c.conce.Do(func() {
+		for _, b := range c.LocalBuckets {
+			b.ReadBucket.Close()
+			b.WriteBucket.Close()
+		}
+	})
+
 	return c.conn.Close()
 }
 
